@@ -45,12 +45,18 @@ func genFirstTouch(rnd *rand.Rand) (runCfg, [][]actT) {
 		}
 		lc.Seeds = append(lc.Seeds, s, second)
 	}
-	nt := 6
+	nt := 5
 	var bursts [][]actT
 	multi := lc.Kind == "TKeyLockerGrp"
 	for i := 0; i < slots; i++ {
-		n := 4 + rnd.Intn(3)
-		twoKeys := rnd.Intn(4) == 0
+		// mostly: up to five callers on ONE key through the single-key call (a small search space for the witness);
+		// sometimes fewer callers with list forms and a second key of the same slot
+		plain := rnd.Intn(4) != 0
+		n := 4 + rnd.Intn(2)
+		if !plain {
+			n = 2 + rnd.Intn(2)
+		}
+		twoKeys := !plain && rnd.Intn(2) == 0
 		var b []actT
 		for t := 0; t < n; t++ {
 			k := 2 * i
@@ -58,7 +64,7 @@ func genFirstTouch(rnd *rand.Rand) (runCfg, [][]actT) {
 				k++
 			}
 			a := actT{Call: true, T: t, Keys: []int{k}, Write: rnd.Intn(6) != 0}
-			if multi && rnd.Intn(2) == 0 {
+			if multi && !plain && rnd.Intn(2) == 0 {
 				a.Multi = true
 				if rnd.Intn(3) == 0 {
 					a.Keys = []int{2 * i, 2*i + 1}
